@@ -130,6 +130,13 @@ def tracked_specs(ref):
     specs = {"plain": ("str", L), "untyped": ("str", "bla/bla"), "path-born": ("path", P), "fields-born": ("fields", dict(d)),
              "query-born": ("query", "&".join(f"{k}={v}" for k, v in list(d.items())[:4])), "short": ("str", "/".join(L.split("/")[:3])),
              "empty": ("str", "")}
+    # a Sid whose free-text value holds blanks (a value the query form would spell differently)
+    names = [i for i, (k, p) in enumerate(ref.templates[leaf]) if p is None]
+    if names:
+        b = L.split("/")
+        b[names[0]] = "big  bird "
+        if ref.natural("/".join(b))[0] == leaf:
+            specs["blank-name"] = ("str", "/".join(b))
     for i, t in enumerate(forced[:3]):
         specs[f"forced{i}"] = ("str", t + ":" + S)
     return specs, L, S
@@ -219,7 +226,8 @@ def operations(ref, L, S):
     reg("div", lambda c: c["T"]["short"] / "x" / "y")
     reg("parent-walk", lambda c: c["T"]["plain"].parent.parent.parent)
     reg("get_as-all", lambda c: [c["T"]["plain"].get_as(k) for k in keys])
-    reg("as_query", lambda c: c["T"]["plain"].as_query())
+    reg("as_query", lambda c: [x.as_query() for x in c["T"].values() if x])
+    reg("as_query(parent-of-blank-name)", lambda c: c["T"]["blank-name"].parent.as_query() if "blank-name" in c["T"] else None)
     reg("path-all-configs", lambda c: [c["T"]["plain"].path(n) for n in (None, "local", "server")])
     reg("path(forced)", lambda c: [x.path() for k, x in c["T"].items() if k.startswith("forced")])
     reg("match", lambda c: [c["T"]["plain"].match(S), c["T"]["plain"].match(L), c["T"]["untyped"].match(S)])
